@@ -323,3 +323,79 @@ h19d!(c19_col_w1111_s2, [1, 1, 1, 1], 4, 4, 2, 6);
 h19d!(c19_col_w1311, [1, 3, 1, 1], 4, 6, 0, 8);
 h19d!(c19_col_w1141, [1, 1, 4, 1], 4, 7, 3, 9);
 h19d!(c19_col_w11111, [1, 1, 1, 1, 1], 5, 5, 0, 7);
+
+// ---- H19e: the lexer-level queries built on the cache ------------------------------------------
+
+use lrlex::{DefaultLexerTypes, LRNonStreamingLexer};
+use lrpar::NonStreamingLexer;
+use std::str::FromStr;
+
+macro_rules! h19e {
+    ($name:ident, $w:expr, $n:expr, $b:expr, $unwind:expr) => {
+        /// `NonStreamingLexer::{span_lines_str, line_col}` of lrlex's lexer object, for every span of
+        /// character boundaries of a symbolic text.
+        #[kani::proof]
+        #[kani::unwind($unwind)]
+        pub fn $name() {
+            const N: usize = $n;
+            const B: usize = $b;
+            let (buf, bounds) = any_text::<N, B>($w);
+            let s = unsafe { std::str::from_utf8_unchecked(&buf[..]) };
+            let cache = NewlineCache::from_str(s).unwrap();
+            let lexer: LRNonStreamingLexer<DefaultLexerTypes<u8>> = LRNonStreamingLexer::new(s, Vec::new(), cache);
+            let si: usize = kani::any();
+            let ei: usize = kani::any();
+            kani::assume(si <= ei && ei <= N);
+            let (st, en) = (bounds[si], bounds[ei]);
+            // reference scans
+            let mut ls = 0; // start of the line containing st
+            let mut line_s = 1;
+            let mut ls_e = 0; // start of the line containing en
+            let mut line_e = 1;
+            let mut i = 0;
+            while i < B {
+                if buf[i] == b'\n' {
+                    if i < st {
+                        ls = i + 1;
+                        line_s += 1;
+                    }
+                    if i < en {
+                        ls_e = i + 1;
+                        line_e += 1;
+                    }
+                }
+                i += 1;
+            }
+            // end (excluding the newline) of the line containing position p
+            let mut end_a = B;
+            let mut end_b = B;
+            let mut i = B;
+            while i > 0 {
+                i -= 1;
+                if buf[i] == b'\n' {
+                    if i >= en {
+                        end_a = i;
+                    }
+                    if en > st && i >= en - 1 {
+                        end_b = i;
+                    }
+                }
+            }
+            if en == st {
+                end_b = end_a;
+            }
+            let got = lexer.span_lines_str(cfgrammar::Span::new(st, en));
+            let off = unsafe { got.as_ptr().offset_from(s.as_ptr()) } as usize;
+            assert!(off == ls, "lines of a span start at the start of its first line");
+            assert!(off + got.len() == end_a || off + got.len() == end_b, "lines of a span end at the end of its last line");
+            let ((l1, _c1), (l2, _c2)) = lexer.line_col(cfgrammar::Span::new(st, en));
+            assert!(l1 == line_s && l2 == line_e, "line numbers of both ends of the span");
+            kani::cover!(line_e > line_s, "span over more than one line");
+            kani::cover!(en == B && st < en, "span ending at end of text");
+            std::mem::forget(lexer);
+        }
+    };
+}
+h19e!(c19_lex_w11, [1, 1], 2, 2, 4);
+h19e!(c19_lex_w111, [1, 1, 1], 3, 3, 5);
+h19e!(c19_lex_w121, [1, 2, 1], 3, 4, 6);
